@@ -18,7 +18,7 @@ PROP = 'C07'
 LEVEL = 'exploration'
 BATCH = 200
 TIERS = {
-    'quick': {'runs': 60000, 'budget': 45},
+    'quick': {'runs': 500000, 'budget': 30},
     'thorough': {'runs': 4_000_000, 'budget': 480},
 }
 RULE = ('seeded runs: field list (0-8 text/file parts, repeated and mixed names, names/filenames over an alphabet '
@@ -88,6 +88,9 @@ def gen_case(rng, tier):
     order = ['forms', 'files', 'POST']
     rng.shuffle(order)
     case['touch'] = order[:rng.choice([1, 2, 3, 3])]
+    if 'files' in case['touch'] and rng.random() < 0.35:
+        # read the uploads piecewise in round-robin order instead of one after the other
+        case['touch'] = [('files_rr:%d' % rng.choice([1, 3, 16, 64])) if t == 'files' else t for t in case['touch']]
     return case
 
 
